@@ -366,6 +366,9 @@ FIXED = {
                           lambda a, b, c, gx, gy, nn, m: S(a) + S(gy) + "[" + S(gx) + "]"),
     "with_lax_error": ("{% with x: a %}{{ x }}{{ x | nosuchfilter }}{{ x }}{% endwith %}[{{ x }}]{% with y: b %}{% include 'nosuchpartial' %}{% endwith %}[{{ y }}]",
                        lambda a, b, c, gx, gy, nn, m: S(a) + "[" + S(gx) + "][" + S(gy) + "]"),
+    "macro_unbound_vs_caller_locals": ("{% macro mm p, q, r: c %}[{{ p }}|{{ q }}|{{ r }}]{% endmacro %}{% assign p = a %}{% capture q %}{{ b }}{% endcapture %}{% call mm %}"
+                                       "{% for q in (1..1) %}{% call mm q: 7 %}{% for p in (2..2) %}{% call mm %}{% endfor %}{% endfor %}{% with p: b, q: a, r: a %}{% call mm %}{% endwith %}{% increment p %}{% call mm r: p %}",
+                                       lambda a, b, c, gx, gy, nn, m: "[||%s][|7|%s][||%s][||%s]0[||%s]" % (S(c), S(c), S(c), S(c), S(a))),
     "macro_redefined_in_loop": ("{% for i in (1..3) %}{% if i == 2 %}{% macro mm p: b, q: 'Q' %}<{{ p }}{{ q }}>{% endmacro %}{% else %}{% macro mm p: a, q: c %}<{{ p }}{{ q }}>{% endmacro %}{% endif %}{% call mm %}{% call mm q: i %}{% endfor %}",
                                 lambda a, b, c, gx, gy, nn, m: "<%s%s><%s1><%sQ><%s2><%s%s><%s3>" % (S(a), S(c), S(a), S(b), S(b), S(a), S(c), S(a))),
     "macro_call_in_cached_partial": ("{% macro mm p: a %}<{{ p }}>{% endmacro %}{% include 'callmm' %}{% macro mm p: b %}[{{ p }}]{% endmacro %}{% include 'callmm' %}{% macro mm p %}({{ p }}){% endmacro %}{% include 'callmm' %}",
@@ -423,7 +426,7 @@ GROUPS = {
     "with_left_early": ("with_break_no_leak", "with_continue_every", "with_break_nested", "with_lax_error"),
     "with_and_macro": ("with_around_call", "with_in_macro", "macro_own_scope", "macro_no_leak"),
     "macro_defaults": ("macro_two_calls", "macro_late_default", "macro_literal_defaults", "macro_nil_argument"),
-    "macro_redefined": ("macro_redefined_in_loop", "macro_call_in_cached_partial"),
+    "macro_redefined": ("macro_redefined_in_loop", "macro_call_in_cached_partial", "macro_unbound_vs_caller_locals"),
     "macro_forms": ("macro_in_for", "macro_quoted_name", "macro_docs_variadic", "macro_caller_scope", "macro_commas"),
 }
 
